@@ -37,6 +37,7 @@ def families(tier):
         {'name': 'nested', 'params': {'hist': 'B', 'modes': ['ok', 'raise_after', 'no_create']}, 'weight': 2},
         {'name': 'siblings', 'params': {'hist': 'BB', 'modes': ['ok', 'raise_before']}, 'weight': 2},
         {'name': 'swap', 'params': {'hist': 'BB'}, 'weight': 1},
+        {'name': 'swap', 'params': {'hist': 'BMB', 'mut_paths': ['o', 'o/d'], 'mut_kinds': ['rmtree', 'delete', 'dir2file']}, 'weight': 2},
         {'name': 'N3', 'params': {'hist': 'BB', 'universe': UN3, 'kinds': ['is_dir'], 'roles': ['o'],
                                   'bf_modes': ['ok', 'raise_after']}, 'weight': 3},
     ]
@@ -193,7 +194,7 @@ def harness(eng, fam, P):
                 if any(':start' in k or ':written' in k for k in pr.answers['impl']) or True:
                     pass
             else:
-                mutate(eng, w, str(si), ['none', 'delete', 'write', 'mkdir', 'rmtree', 'file2dir', 'dir2file'],
+                mutate(eng, w, str(si), P.get('mut_kinds', ['none', 'delete', 'write', 'mkdir', 'rmtree', 'file2dir', 'dir2file']),
                        P.get('mut_paths', ['o', 'o/d', 'o/d/g', 'o/d/z', 'o/f', 'in/y']))
         eng.sample({'family': fam, 'program': eng.path_info['program'], 'history': P['hist'], 'probe_paths': paths})
     finally:
